@@ -165,7 +165,7 @@ MEmit == pc = "mdone" => PrintT(ToString(<<"ADM", Entry, ev.qv, ev.cg, verdict.a
 
 -----------------------------------------------------------------------------
 (* trace mode: one recorded run of IrReps per behaviour                                        *)
-(* event: id, qv, cg, st, opl = <<[rot, tn]>>, gx, gm, bsets, gaps, cx, chr, hx, pgs, vix, rsy, cnv, lbl *)
+(* event: id, qv, cg, crs, st, ox, opl = <<[rot, tn]>>, gx, gm, bsets, gaps, gpf, cx, chr, pgs, vix, rsy, cnv, lbl *)
 
 TInit == /\ pc = "trace" /\ ev \in Events /\ gam = <<>> /\ verdict = <<>>
 
@@ -180,6 +180,10 @@ TLoad == /\ pc = "trace"
          /\ UNCHANGED <<ev, verdict>>
 
 NG == Len(gam)
+(* the tolerance handed to set_irreps is coarser than a gap the eigenvalues resolve (neighbours closer than the tolerance   *)
+(* but further apart than 1e-7, gpf = "numerically equal"), or the run is deliberately coarse: the sets then merge different *)
+(* eigenspaces and nothing is demanded about their irreducibility or labels (they must still be characters)               *)
+CoarseEv == ev.crs \/ \E i \in 1..Len(ev.gaps) : ev.gaps[i] /\ ~ev.gpf[i]
 AtGamma == ev.qv = <<0, 0, 0>>
 NS == Len(ev.bsets)
 NB == 3 * NA
@@ -230,7 +234,7 @@ AcousticOK ==
   AtGamma => /\ Len(ev.bsets[1]) >= 3
              /\ (Len(ev.bsets[1]) = 3 => \A k \in 1..NG : ev.chr[1][k] = CInt(2 * Tr(gam[k].rot)))
 IrreducibleOK ==
-  \A s \in 1..NS : Exempt(s) \/ (ev.crs /\ Multiplicity(s) >= 1) \/
+  \A s \in 1..NS : Exempt(s) \/ (CoarseEv /\ Multiplicity(s) >= 1) \/
     LET m == Multiplicity(s)
         n == Cardinality(FlipOps)
     IN IF ev.cg THEN m \in {1, 2, 4}
@@ -273,11 +277,11 @@ VecDotRow(lab) ==
   CSumSeq([k \in 1..NG |-> CInt(2 * TV.ct[lab][ColOf(ev.rsy[k])] * Tr(gam[k].rot))], NG)
 LabelsOK ==
   /\ Len(ev.lbl) = NS
-  /\ \A s \in 1..NS : IF ev.lbl[s] = "None" THEN Exempt(s) \/ ev.crs
+  /\ \A s \in 1..NS : IF ev.lbl[s] = "None" THEN Exempt(s) \/ CoarseEv
                         ELSE ev.lbl[s] \in DOMAIN TV.ct /\ RowMatches(ev.chr[s], ev.lbl[s])
   (* number of sets carrying a label = multiplicity of that row in the mechanical representation:  *)
   (* <chi_mech, chi_lab> = n_lab <chi_lab, chi_lab>                                                 *)
-  /\ ev.crs \/ \A lab \in DOMAIN TV.ct :
+  /\ CoarseEv \/ \A lab \in DOMAIN TV.ct :
        CAdd(MechDotRow(lab), IF VecReducible THEN CScale(-1, VecDotRow(lab)) ELSE CZero)
          = CInt(2 * Cardinality({s \in 1..NS : ~Exempt(s) /\ ev.lbl[s] = lab}) * RowNorm(lab))
 
